@@ -32,6 +32,64 @@ func (c *Check) pathEffects(f *Func, pa *Path) []*Eff {
 	return out
 }
 
+// valIsOldPlus: the stored value contains Add(old, earned…) where old is what a module function reads from
+// the given family for the given subject (whatever that reader is called and however it reaches the store).
+func (c *Check) valIsOldPlus(val *Term, fam, subject, earned string) bool {
+	hit := false
+	val.Walk(func(t *Term) bool {
+		if hit {
+			return false
+		}
+		if t.Op == "sdk.Coins.Add" && len(t.A) == 2 && stripSpread(t.A[1]).String() == earned {
+			if s, ok := c.termReadsFamily(t.A[0], fam); ok && s != nil && s.String() == subject {
+				hit = true
+			}
+		}
+		return true
+	})
+	return hit
+}
+
+// termReadsFamily: t is (a result of) a call of a module function whose only store reads, on these arguments,
+// are of the given family; returns the subject (first key argument) of those reads.
+func (c *Check) termReadsFamily(t *Term, fam string) (*Term, bool) {
+	t = stripConv(t)
+	if t.Op == "res" && len(t.A) == 2 {
+		t = t.A[1]
+	}
+	g := c.P.FuncNamed(t.Op)
+	if g == nil || !g.isHandWritten() || g.Body == nil {
+		return nil, false
+	}
+	m := argMap(g, t)
+	var subject *Term
+	n := 0
+	for _, e := range c.P.SummaryOf(g).Effs {
+		if e.Kind != "store" {
+			continue
+		}
+		if e.Op != "Iter" && e.Op != "Get" {
+			return nil, false // the reader writes
+		}
+		key := e.Key.Subst(m)
+		for _, v := range c.P.keyVariants(key, 0) {
+			f2, _ := c.P.keyFamily(v.Key)
+			if f2 != fam {
+				return nil, false
+			}
+			k := stripConv(stripSpread(v.Key))
+			if len(k.A) >= 1 {
+				if subject != nil && !subject.Eq(k.A[0]) {
+					return nil, false
+				}
+				subject = k.A[0]
+				n++
+			}
+		}
+	}
+	return subject, n > 0
+}
+
 func keyArgs(e *Eff) []*Term {
 	k := stripConv(stripSpread(e.Key))
 	return k.A
@@ -325,6 +383,7 @@ func (c *Check) earnRules(prefix string) {
 		}
 	}
 	sawSkeleton := false
+	sawBoth := false
 	for _, pa := range c.P.PathsOf(f) {
 		if !pa.OK() {
 			continue
@@ -370,7 +429,7 @@ func (c *Check) earnRules(prefix string) {
 		}
 		// both records grow by the same remainder
 		for _, e := range set18 {
-			if !strings.Contains(e.Val.String(), "(sdk.Coins.Add (res 0 ("+c.nEarned()+" "+provP+")) (spread "+earned+"))") {
+			if !strings.Contains(e.Val.String(), "(sdk.Coins.Add (res 0 ("+c.nEarned()+" "+provP+")) (spread "+earned+"))") && !c.valIsOldPlus(e.Val, "0x18", provP, earned) {
 				add("provider-record", "provider earnings are not old + (fee − tax): "+shortTerm(e.Val), pa)
 			}
 			if k := keyArgs(e); len(k) < 1 || !k[0].IsAt(provP) {
@@ -382,7 +441,7 @@ func (c *Check) earnRules(prefix string) {
 			owner = fmt.Sprintf("(res 0 (%s %s))", gOwner.Name, provP)
 		}
 		for _, e := range set19 {
-			if !strings.Contains(e.Val.String(), "(sdk.Coins.Add (res 0 ("+c.nOwnerEarned()+" "+owner+")) (spread "+earned+"))") {
+			if !strings.Contains(e.Val.String(), "(sdk.Coins.Add (res 0 ("+c.nOwnerEarned()+" "+owner+")) (spread "+earned+"))") && !c.valIsOldPlus(e.Val, "0x19", owner, earned) {
 				add("owner-record", "owner earnings are not old + the same (fee − tax): "+shortTerm(e.Val), pa)
 			}
 			if k := keyArgs(e); len(k) < 1 || k[0].String() != owner {
@@ -392,7 +451,7 @@ func (c *Check) earnRules(prefix string) {
 		// which writes exist depends on the loop unrolling of the setters; require both setter calls
 		calls18, calls19 := 0, 0
 		for _, ev := range pa.Events {
-			if ev.Kind == EvCall && ev.CI.fn != nil {
+			if ev.Kind == EvCall {
 				effs := c.P.effectsOfEvent(f, ev)
 				for _, e := range effs {
 					if e.Kind == "store" && e.Op == "Set" && e.Family == "0x18" {
@@ -408,9 +467,17 @@ func (c *Check) earnRules(prefix string) {
 				}
 			}
 		}
-		if calls18 != 1 || calls19 != 1 {
+		// no path writes a record twice; some path writes both (when the per-coin loops of the writers are part of this
+		// function's paths, their zero-iteration variants write nothing)
+		if calls18 > 1 || calls19 > 1 {
 			add("dual-bookkeeping", fmt.Sprintf("provider record written by %d calls and owner record by %d calls (need 1 and 1)", calls18, calls19), pa)
 		}
+		if calls18 == 1 && calls19 == 1 {
+			sawBoth = true
+		}
+	}
+	if !sawBoth {
+		bad["dual-bookkeeping"] = append(bad["dual-bookkeeping"], "no committed path writes both the provider record and the owner record")
 	}
 	if !sawSkeleton {
 		bad["tax-skeleton"] = append(bad["tax-skeleton"], "no path shows the per-coin tax computation")
